@@ -19,8 +19,11 @@ RULES = {
     "R3": "outer-scope guard: passing an unmapped original value into a clone node is dominated by the "
     "allow_outer_scope_values test whose other branch raises; GRAPH/GRAPHS attributes are cloned alike (S1)",
     "R4": "the functional pass wrapper uses its model parameter only as the receiver of .clone()",
+    "R5": "accumulated change flags of the cloner are monotone (shared rule S3): a flag initialised false outside a loop, "
+    "assigned inside it and read after it is only set by monotone forms - `changed = <this iteration>` forgets earlier "
+    "iterations, so a rebuilt (remapped) collection is dropped and the clone keeps references into the original",
 }
-FLOORS = {"R1": 26, "R2": 30, "R3": 2, "R4": 1}
+FLOORS = {"R1": 26, "R2": 30, "R3": 2, "R4": 1, "R5": 2}
 EXPLANATION = (
     "A sharing analysis over the cloner and the clone() methods: each data flow original.field → clone is classified "
     "by the mutability of the field's declared class (computed from the source: setters, __setitem__, self-stores) "
@@ -499,7 +502,29 @@ def rule_r3_r4(ctx):
               "the functionalized pass runs on (or otherwise touches) its input model", how="every use of the parameter is <model>.clone()")
 
 
+def rule_s3(ctx):
+    from ..shared import accumulator_flags, nonmonotone_flags
+
+    n = 0
+    for f in ctx.repo.module(CL).all_funcs:
+        if isinstance(f.node, ast.Lambda):
+            continue
+        flags = accumulator_flags(f)
+        bad = {name: (a, lp) for name, a, lp in nonmonotone_flags(f)}
+        for name in sorted(flags):
+            n += 1
+            a = bad.get(name)
+            ctx.check("R5", f"{f.local}: accumulator `{name}` is set monotonically inside its loop", a is None, f, a[0] if a else f.node,
+                      f"`{norm(a[0]) if a else ''}` overwrites the accumulator on every iteration: whether the rebuilt result is used depends "
+                      "only on the last element, so rewrites made for earlier elements are thrown away (e.g. sharding references of the "
+                      "clone keep pointing at the original's values)",
+                      how="initialised false outside the loop, read after it; in-loop assignments are True / flag or x / |= / +=",
+                      construct=f"non-monotone accumulator {name}")
+    ctx.require(n >= 2, f"only {n} accumulator flags found in the cloner")
+
+
 def run(ctx):
+    rule_s3(ctx)
     rule_r5(ctx)
     rule_r1(ctx)
     rule_r2(ctx)
